@@ -67,9 +67,9 @@ CHECKS.update({
  "C10": ("stateless exploration of prover-completion schedules and outcome assignments on the real binary (controlled scheduler via a parking stand-in prover) + loom exploration of all interleavings (bounded preemptions) of the real prove_all source",
          "Layer 2 runs the real `anthem verify` with a stand-in vampire that parks until released; every assignment of outcomes (Theorem, other SZS statuses, unknown word, no status line, non-UTF8 noise, non-zero exit, death by signal) to the problems and every release order for 1..8 prover instances is executed and judged (Success iff all Theorem, each problem handed over once and byte-identical to its saved file); plus the missing-executable configuration. Layer 1 compiles the repository's own prove_all text against loom and explores all schedules up to the preemption bound.",
          "trusted: the stand-in protocol (identifies problems by their stdin), loom port of threadpool 1.8.1 and the mpsc shim (validated against std on all operation sequences and against 200 free-running runs of the real implementation)", "4 C10"),
- "C18": ("exhaustive pass-by-pass re-execution of the fixpoint iteration with cycle detection over the formula families (model checking); repeated fresh-process runs compared byte-wise over the whole corpus (exploration in the hash-seed dimension)",
-         "Termination/idempotence: for every formula of families A-H (incl. deep chains needing one pass per level) x 3 portfolios the iteration is re-run pass by pass with cycle detection, the real apply_fixpoint must return the same formula and be idempotent. Determinism: every command on every corpus input is run R times in fresh processes and compared byte-wise.",
-         "trusted: structural equality of formulas; the hash-seed dimension of the determinism half is sampled (R fresh processes), which is stated in the evidence", "4 C18"),
+ "C18": ("exhaustive pass-by-pass re-execution of the fixpoint iteration with cycle detection over the formula families (model checking); every command of the corpus re-run under an enumerated list of harness-chosen hash seeds (getrandom interposed) plus one free-running process, outputs compared byte-wise",
+         "Termination/idempotence: for every formula of families A-H (incl. deep chains needing one pass per level) x 3 portfolios the iteration is re-run pass by pass with cycle detection, the real apply_fixpoint must return the same formula and be idempotent. Determinism: every command on every corpus input is run once per hash seed of a fixed list (LD_PRELOAD shim cli/seedshim.c makes std's RandomState keys a function of VERIF_HASH_SEED, so a failing seed fails every time) and once free-running; all outputs must be byte-identical.",
+         "trusted: structural equality of formulas; the hash-seed dimension of the determinism half is a fixed enumerated seed list (3 quick / 11 thorough), not all keys, which is stated in the evidence", "4 C18"),
  "C20": ("exhaustive enumeration of argument permutations x direct/directory placements on the real CLI against a reference role rule",
          "For each file set all permutations of the argument list and all ways of giving files directly or through up to two directories are run with --no-proof-search --save-problems; the emitted problem files must be byte-identical to those of the canonical call computed by the reference rule; swapping the programs of a strong task must exchange forward and backward.",
          "trusted: the reference role rule in cli/c20_roles.py, written from the property statement", "4 C20"),
